@@ -66,6 +66,14 @@ def run(plan):
             if o.kind != "ok":
                 res.fail(f"get_capabilities raised {o.exc_type}", repr(o.exc))
                 return
+        if plan.get("caps_profile") and not non_custom:
+            # whatever the unit says about its capabilities, reports decode to what they say
+            dev.caps_pages = [([(cid, bytes.fromhex(v)) for cid, v in plan["caps_profile"]], None)]
+            o = await s.do({"op": "caps"})
+            if o.kind != "ok":
+                res.fail(f"get_capabilities raised {o.exc_type}", repr(o.exc))
+                return
+            w.fire("capabilities_learned_before_reports")
         dev.fixed_msg_id = bool(plan.get("fixed_msg_id"))
         bodies = list(plan["bodies"])
         if plan.get("repeat"):
@@ -144,7 +152,7 @@ def run(plan):
     res.add_fired(dev.fired)
     res.key = (plan.get("check_style"), with_msgid, bool(plan.get("non_custom_fan")), bool(plan.get("repeat")),
                bool(plan.get("fixed_msg_id")), bool(plan.get("stale_first")), tuple(plan["bodies"]),
-               repr(sorted(plan.get("clock_steps", {}).items())))
+               repr(sorted(plan.get("clock_steps", {}).items())), repr(plan.get("caps_profile")))
     res.nontrivial = True
     return res
 
@@ -159,9 +167,17 @@ def space(tier):
     sp = Space(ID)
 
     def mk(bodies, j, rng, with_msgid=None):
-        return {"config": {"version": 2 + j % 2}, "bodies": [bytes(b).hex() for b in bodies],
-                "check_style": ["crc", "sum"][(j // 2) % 2],
-                "with_msgid": (rng.random() < 0.7) if with_msgid is None else with_msgid}
+        p = {"config": {"version": 2 + j % 2}, "bodies": [bytes(b).hex() for b in bodies],
+             "check_style": ["crc", "sum"][(j // 2) % 2],
+             "with_msgid": (rng.random() < 0.7) if with_msgid is None else with_msgid}
+        if j % 4 == 2:
+            from .c15 import rand_record
+            recs = [r for r in (rand_record(rng) for _ in range(rng.randint(1, 8))) if r[0] != 0x0210]
+            recs.insert(rng.randrange(len(recs) + 1), [0x0210, "01"])      # custom fan speeds: every speed is reportable
+            if rng.random() < 0.5:
+                recs.append([0x0225, bytes([rng.randrange(32, 64) for _ in range(6)] + [rng.choice([0, 1])]).hex()])
+            p["caps_profile"] = recs
+        return p
 
     # sensors: 256 raw values x tenths 0..9, indoor/outdoor, C/F  -> 16 bodies per run
     def f_sens(j, rng):
